@@ -5,6 +5,8 @@
 //!               lattice against an exact integer edge-function oracle
 //!   random      generated triangles (class mixture of shapes and scales)
 //!               against f64 signed edge distances with the 0.001 px band
+//!   far-vertex  two vertices near the origin, the third up to 2^20 px below: the first 64 rows against a
+//!               band that follows the local coordinate magnitude, not the far vertex's
 //!   mesh        quads split by a diagonal and fans around a vertex: per-pixel
 //!               draw count 1 inside the union, 0 outside
 //! Structural invariants (y strictly increasing, no pixel twice, xs length ==
@@ -473,6 +475,139 @@ pub fn check_random(c: &TriCase, obs: &mut Obs) -> Check {
     Ok(())
 }
 
+// ------------------------------------------------------------------ far vertex, near window
+
+pub const WIN: usize = 64;
+
+/// Two vertices within 60 px of the origin and a third one up to 2^20 px away, far below: hundreds of thousands of
+/// scanlines, of which only the first WIN are examined -- there every quantity the rasteriser steps is small, so the
+/// rounding error is local (a few ulps of the coordinates *in those rows*) and the band need not grow with the far
+/// vertex's magnitude as D-a's global bound does. Computing anything near the origin from the far end (an edge start
+/// from its far endpoint, the long-edge split point interpolated from the bottom) costs ulp(1e6) = 0.06 px there.
+pub fn far_case() -> BoxedStrategy<TriCase> {
+    let yfar = prop_oneof![
+        3 => (11.0f32..20.0).prop_map(|e| e.exp2()),
+        1 => (11i32..=20).prop_map(|e| (e as f32).exp2()),
+        1 => (11i32..=19).prop_map(|e| (e as f32).exp2() + 0.5),
+    ];
+    let ratio = prop_oneof![3 => 0.0f32..=1.5, 1 => 0.0f32..=4.0, 1 => Just(0.0f32), 1 => Just(1.0f32)];
+    (pt(60.0), pt(60.0), yfar, ratio, any::<bool>(), any::<u8>())
+        .prop_map(|(a, b, yf, r, int_x, k)| {
+            let xf = (yf * r).min(1048576.0);
+            let xf = if int_x { xf.round() } else { xf };
+            let v = perm([a, b, [xf, yf]], k);
+            TriCase { shape: "far".into(), v: v.map(|p| [X(p[0]), X(p[1])]) }
+        })
+        .boxed()
+}
+
+pub fn check_far(c: &TriCase, obs: &mut Obs) -> Check {
+    let v = c.pts();
+    let t = c.pts64();
+    for p in &v {
+        ensure!(p[0].is_finite() && p[1].is_finite() && p[0] > -0.5 && p[1] > -0.5, "bad-case", "generator produced an out-of-domain vertex {p:?}");
+    }
+    // scanlines of the window in full; of the rest only the order and the row count
+    let res = catch(|| {
+        let mut rows = vec![];
+        let mut total = 0usize;
+        let mut last: Option<usize> = None;
+        let mut order_bad: Option<(usize, usize)> = None;
+        let verts = v.map(|p| vertex(pt3(p[0], p[1], 1.0), ()));
+        tri_fill(verts, |mut sl| {
+            total += 1;
+            if total > (1 << 21) + 8 {
+                panic!("runaway rasterisation: more than 2^21 rows");
+            }
+            if let Some(l) = last {
+                if sl.y <= l && order_bad.is_none() {
+                    order_bad = Some((l, sl.y));
+                }
+            }
+            last = Some(sl.y);
+            if sl.y < WIN {
+                let n = sl.fragments().take(RUNAWAY + 1).count();
+                if n > RUNAWAY {
+                    panic!("runaway rasterisation: row y={} has more than {RUNAWAY} fragments", sl.y);
+                }
+                rows.push(Row { y: sl.y, x0: sl.xs.start, x1: sl.xs.end, frags: n });
+            }
+        });
+        (rows, total, order_bad)
+    });
+    let (rows, total, order_bad) = match res {
+        Ok(r) => r,
+        Err(p) => fail!("tri_fill-panic", "tri_fill panicked on finite input: {p}"),
+    };
+    if let Some((a, b)) = order_bad {
+        fail!("rows-not-increasing", "scanline y={b} arrives after y={a}");
+    }
+    let px = structure(&rows)?;
+    // local magnitude: the largest |x| any edge reaches within rows 0..WIN
+    let wy = WIN as f64;
+    let mut xw = 1.0f64;
+    for i in 0..3 {
+        let (a, b) = (t[i], t[(i + 1) % 3]);
+        for y in [0.0, wy] {
+            let yc = y.clamp(a[1].min(b[1]), a[1].max(b[1]));
+            let x = if a[1] == b[1] { a[0].abs().max(b[0].abs()) } else { (a[0] + (b[0] - a[0]) * (yc - a[1]) / (b[1] - a[1])).abs() };
+            xw = xw.max(x);
+        }
+        for q in [a, b] {
+            if q[1] <= wy {
+                xw = xw.max(q[0].abs());
+            }
+        }
+    }
+    let ulp = 2f64.powi(xw.log2().floor() as i32 - 23);
+    let band = ((wy + 2.0) * ulp).max(0.001);
+    let w = (xw.ceil() as usize + 3).min(1 << 14);
+    let mut cover = vec![0u8; w * WIN];
+    for &(x, y) in &px {
+        if x >= w {
+            fail!("covers-outside", "pixel ({x},{y}) lies to the right of everything the triangle reaches in rows 0..{WIN} (x <= {xw:.1})");
+        }
+        let cell = &mut cover[y * w + x];
+        *cell = cell.saturating_add(1);
+    }
+    let mut n_inside = 0u64;
+    for j in 0..WIN {
+        for i in 0..w {
+            let p = [i as f64 + 0.5, j as f64 + 0.5];
+            let n = cover[j * w + i];
+            let m = tri_inside_margin(t, p);
+            if m > band {
+                n_inside += 1;
+                if n != 1 {
+                    fail!("inside-not-covered", "pixel centre {p:?} is {m:.6} px inside (local band {band:.4}) but drawn {n} times");
+                }
+            } else if m < -band {
+                if n != 0 {
+                    fail!("covers-outside", "pixel centre {p:?} is {:.6} px outside (local band {band:.4}) but drawn {n} times", -m);
+                }
+            } else {
+                ensure!(n <= 1, "pixel-twice", "pixel centre {p:?} drawn {n} times");
+                let truly_in = m > 0.0;
+                if (truly_in && n == 0) || (!truly_in && n == 1) {
+                    obs.max("misclassified-centre-distance/local-band (far vertex)", m.abs() / band);
+                }
+            }
+        }
+    }
+    obs.class("shape:far-vertex(near window)");
+    obs.class(if total > 100_000 { "rows>1e5" } else if total > 10_000 { "rows>1e4" } else { "rows<=1e4" });
+    obs.class(if band > 0.001 { "local-band>0.001" } else { "local-band=0.001" });
+    if n_inside > 0 {
+        obs.nontrivial(hash_of(&c.v));
+        obs.class("covers>=1");
+    }
+    if obs.wants_sample() && n_inside > 0 {
+        let cc = c.clone();
+        obs.sample(|| json!({"case": cc, "pixels_inside_window": n_inside, "rows_total": total, "local_band": band}));
+    }
+    Ok(())
+}
+
 // ------------------------------------------------------------------ meshes
 
 #[derive(Clone, Debug, Serialize, Deserialize)]
@@ -606,6 +741,8 @@ pub fn run(cx: &mut Ctx) {
     cx.prop_check("tall", n, tall_case, |c, obs| check_random(c, obs));
     let n = cx.n(400, 10_000);
     cx.prop_check("wide", n, wide_case, |c, obs| check_random(c, obs));
+    let n = cx.n(1_500, 40_000);
+    cx.prop_check("far-vertex", n, far_case, |c, obs| check_far(c, obs));
 }
 
 pub fn replay(sub: &str, case: &Value) -> Check {
@@ -618,6 +755,9 @@ pub fn replay(sub: &str, case: &Value) -> Check {
     } else if sub == "random" || sub == "tall" || sub == "wide" {
         let c: TriCase = serde_json::from_value(case.clone()).map_err(|e| Fail::new("bad-replay", e.to_string()))?;
         check_random(&c, &mut obs)
+    } else if sub == "far-vertex" {
+        let c: TriCase = serde_json::from_value(case.clone()).map_err(|e| Fail::new("bad-replay", e.to_string()))?;
+        check_far(&c, &mut obs)
     } else if sub == "mesh" {
         let c: MeshCase = serde_json::from_value(case.clone()).map_err(|e| Fail::new("bad-replay", e.to_string()))?;
         check_mesh(&c, &mut obs)
